@@ -287,6 +287,8 @@ def waste_sites(prog):
                 if len(U) != 1:
                     break
                 ub = next(iter(U))
+                if any(r in f.reach_from(start, avoid={ub}) for r in rets):
+                    break       # the decoration itself is conditional: judge the undecorated value
                 t2 = f.blocks[ub]["term"]
                 if t2["k"] == "call" and NEUTRAL.search(callee(t2)) and t2["args"] and not is_const(t2["args"][0]) and \
                         t2.get("dst") and not t2["dst"].get("p") and t2.get("t") is not None and f.dominates(start, ub) and \
